@@ -167,7 +167,10 @@ def resolveNeighbors (s : Schema) (v : Vertex) (typeName edgeName : String) (can
       (asVertexType v).bind fun t =>
         match s.subtypes t.name with
         | none => .panic .adapterSubtypes
-        | some names => .ok (names.filterMap fun n => (findType s.vertexTypes n).map .vertexType)
+        | some names =>
+          -- `.filter(|implementer_type| *implementer_type != vertex.defn.name…)`: the repair of F-27
+          .ok ((names.filter (fun n => n != t.name)).filterMap fun n =>
+            (findType s.vertexTypes n).map .vertexType)
     else if edgeName == "property" then (asVertexType v).bind (propertyNeighbors s)
     else if edgeName == "edge" then (asVertexType v).bind (edgeNeighbors s)
     else .panic .adapterUnreachable
